@@ -63,7 +63,7 @@ RULE = ("per case one configuration drawn from: optimizer in {slsqp, l-bfgs-b, n
         "object run before, the same Plan and step objects run before, an evaluator step and an unused EnsembleEvaluator on the same "
         "configuration object before, complete other runs inside the evaluator, generator-like state (np.random, scipy.stats "
         "distributions) reseeded and drawn from before the run, at every evaluation start and inside every evaluator call) and once more "
-        "with another seed.  Non-trivial = the reference made at least 3 evaluator calls of which at least 2 perturbed, and at least 8 "
+        "with another seed; for the plain workload one BasicOptimizer object is additionally run twice.  Non-trivial = the reference made at least 3 evaluator calls of which at least 2 perturbed, and at least 8 "
         "schedules were compared; distinct = distinct configurations.")
 ASSUMPTIONS = [
     "the evaluator supplied by the harness is a deterministic function of the request (checked: the replay machine reproduces the reference)",
@@ -100,11 +100,10 @@ SAMPLERS = ["norm", "uniform", "truncnorm", "sobol", "halton", "lhs"]
 WORKLOADS = ["single", "eval-opt", "opt-eval-opt", "nested"]
 HARNESS_DIR = os.path.dirname(os.path.dirname(os.path.abspath(__file__)))
 N_QUICK, N_THOROUGH = 32, 240
-# Observation outside the anchored files (plan/_basic_optimizer.py): BasicOptimizer.run() registers its observers again on
-# every call, so the second run() of one BasicOptimizer object delivers every result twice to set_results_callback (requests
-# and exit code are identical).  Reported to the lead; the stream stays disabled until it is decided (no entry in
-# known_findings.json).  Set to True to see the alarm `basic-optimizer-rerun-differs`.
-BASIC_OPTIMIZER_RERUN = False
+# One BasicOptimizer object run twice (a context, a plan function and observers re-used by the second run()): requests,
+# delivered results and exit code of both runs must be identical.  (Found while auditing: run() registered its observers again
+# on every call, so the second run delivered every result twice -- repaired in /repo 522b7ae, fixed finding F15d.)
+BASIC_OPTIMIZER_RERUN = True
 
 
 # ---- generators -----------------------------------------------------------------------------------
@@ -995,6 +994,10 @@ def coq_case(case, obs):
             seg = _segments(r)
             if len(seg) >= 3:
                 twice.append("(" + cq.zs(_seg_digests(seg[0])) + ", " + cq.zs(_seg_digests(seg[2])) + ")")
+    br = obs.get("basic_rerun")
+    if br is not None:
+        twice.append("(" + cq.zs([_zdig(e[1]) for e in br["first"]] + [br["exit"][0]]) + ", " +
+                     cq.zs([_zdig(e[1]) for e in br["second"]] + [br["exit"][1]]) + ")")
     return f"(Build_case (scr {calls} {int(ref['exit'])}) {cq.nat(ref['touches'])} {cq.lst(runs)} {pert} {cq.lst(twice)})"
 
 
@@ -1073,7 +1076,7 @@ def features(case, obs):
             "seed_clause": _seed_clause_applies(s),
             "de_seed": (s.get("de_seed_name", "seed") + ("=0" if s["de_seed"] == 0 else "=n") + ("/parallel" if s.get("parallel") else ""))
                        if s["method"] == "differential_evolution" else "-",
-            "speculative": bool(s.get("speculative"))}
+            "speculative": bool(s.get("speculative")), "basic_optimizer_rerun": obs.get("basic_rerun") is not None}
 
 
 def known_signature(case, obs, violation):
